@@ -59,7 +59,7 @@ def literals(ctx):
 
 def run(ctx):
     ctx.trusted = TRUSTED
-    ok, detail = core.coq_build(ctx, ["theories/Props/C16.vo", "theories/Err/Corr.vo", "theories/Err/CorrReject.vo",
+    ok, detail = core.coq_build(ctx, ["theories/Err/RemoteCorr.vo", "theories/Props/C16.vo", "theories/Err/Corr.vo", "theories/Err/CorrReject.vo",
                                      "theories/Err/QueueCorr.vo"])
     ctx.oblige("coq build of Props/C16.vo and its dependencies", ok, detail)
     core.audit(ctx)
@@ -80,7 +80,8 @@ def run(ctx):
         "internal/target/queue/zz_verif_c16q_test.go": "harness/c16/c16_queue_test.go",
         "internal/endpoint/smtp/zz_verif_c16r_test.go": "harness/c16/c16_reject_test.go",
         "internal/msgpipeline/zz_verif_export.go": "harness/msgpipeline/export.go",
-    }, {"internal/endpoint/smtp": "smtp", "internal/target/queue": "queue"})
+        "internal/target/remote/zz_verif_c16m_test.go": "harness/c16/c16_remote_test.go",
+    }, {"internal/endpoint/smtp": "smtp", "internal/target/queue": "queue", "internal/target/remote": "remote"})
     n = 400 if ctx.tier == "quick" else 12000
     core.generic_corr(ctx, overlay=ov, pkg="internal/endpoint/smtp", run="TestVerif_C16", n=n,
                       corr_module="Err.Corr", clause_names=CLAUSES, name="errtrees")
@@ -89,6 +90,9 @@ def run(ctx):
                       corr_module="Err.QueueCorr", clause_names=CLAUSES, name="queue")
     core.generic_corr(ctx, overlay=ov, pkg="internal/endpoint/smtp", run="TestVerif_C16Reject", n=0,
                       corr_module="Err.CorrReject", clause_names=CLAUSES, name="reject")
-    ctx.coverage["rule"] = ("error trees of depth 1-4 over 8 constructors generated from VERIF_SEED: 70% well-annotated "
+    core.generic_corr(ctx, overlay=ov, pkg="internal/target/remote", run="TestVerif_C16Remote", n=0,
+                      corr_module="Err.RemoteCorr", clause_names=CLAUSES, name="remote_no_usable_mx")
+    ctx.coverage["rule"] = ("remote_no_usable_mx: every set of 1-3 MX candidates each of which is down (temporary) or has no "
+                            "address (permanent), exhaustively, through the real remote target; error trees of depth 1-4 over 8 constructors generated from VERIF_SEED: 70% well-annotated "
                             "stream, 30% malformed stream (annotation keys in field wrappers, class mismatches, odd codes); "
                             "non-trivial = model tag != 0 (well-annotated, annotated, temporary, deadline or unclassified bits), distinct by case text")
